@@ -4,8 +4,10 @@
   Property theorems only.  Model: Cello/Fmt.lean (`loop` / `printToWith`: the scanner of src/Show.c print_to_with with
   explicit index reads and fmt_buf writes; `Out.formatTo`: format_to on a String / File sink; `showD`: the built-in
   Show instances; `refRun`: the reference semantics of the format grammar, one segment at a time).
-  Source-derived: CelloGen/Fmt.lean (scan set, dispatch `if`s, the function text, the show formats) through
-  `cfgNow` / `showNow` (Lemmas/FmtNow.lean).  What libc prints for ONE specification is the parameter `prim` (trusted).
+  Source-derived: CelloGen/Fmt.lean (scan set, dispatch `if`s, the function text, the show formats, the statement list of
+  String_Format_To) through `cfgNow` / `showNow` / `primNow` (Lemmas/FmtNow.lean).  What libc does for ONE `format_to` call
+  is the parameter `libc : Libc` (trusted): the text it prints when it accepts the call, and whether it rejects it
+  (negative result).  `prim : Prim` = libc + the code of String_Format_To; `primNow libc` = with the code in /repo now.
   Helper lemmas: CelloProofs/Lemmas/Fmt*.lean.
 -/
 import CelloProofs.Lemmas.FmtRefine
@@ -16,6 +18,7 @@ import CelloProofs.Lemmas.FmtParse
 import CelloProofs.Lemmas.FmtCalls
 import CelloProofs.Lemmas.FmtShow
 import CelloProofs.Lemmas.FmtBuiltin
+import CelloProofs.Lemmas.FmtReject
 
 namespace Cello.Fmt
 
@@ -39,6 +42,22 @@ theorem C14_dispatch_table :
     firing cfgNow 'c' = [.cint] ∧ firing cfgNow 's' = [.cstr] ∧ firing cfgNow 'p' = [.obj] ∧ firing cfgNow '$' = [.show] := by
   decide
 
+/-- **`String_Format_To` as it is in the source** (generic branch): the measuring `vsnprintf`, then
+    `if (size < 0) { return size; }`, and only then the alloc check, the `realloc`, the NULL check and the `vsprintf`
+    (fix a626877: the guard stands BEFORE anything touches the String). -/
+theorem C14_string_format_to_steps :
+    stepsNow = [.measure, .guard, .allocCheck, .realloc, .memCheck, .write] := by
+  decide
+
+/-- **A call libc rejects, code as it is now**: whatever the sink (String or File), its content and the position are
+    unchanged, the call is in the log, and `print_to_with` gets FormatError (`if (off < 0) { throw(FormatError, …); }`).
+    Depends on the position of the guard in `String_Format_To` read from the source. -/
+theorem C14_reject_call (libc : Libc) (o : Out) (frag : Str) (v : PVal) (h : libc.rej frag v = true) :
+    o.call (primNow libc) frag v = ({ o with calls := o.calls ++ [⟨frag, v⟩] }, .raised .FormatError) := by
+  have hr : (primNow libc).rej frag v = true := h
+  rw [call_guarded _ (primNow_guarded libc), formatTo_rej _ (primNow_guarded libc) _ hr]
+  simp [callOutcome, hr]
+
 /-! ## T1: segmentation -/
 
 /-- **C14_segmentation.** For every well-formed segmentation `segs` (literals of any bytes but `%`/NUL, `%%`, specifications
@@ -46,9 +65,9 @@ theorem C14_dispatch_table :
     destination/start position: `print_to_with` on the rendered format does exactly what the grammar's reference semantics
     does — one `format_to` per literal run (the whole run, verbatim), one per `%%`, and for the k-th specification the
     dispatch on its conversion character with the fragment `%` body conv and the k-th argument, in order; it stops with
-    FormatError at the first specification that has no argument, or with the exception of the first conversion that
-    raises.  (Outcome and destination are equal; the concatenation of the segments is the format by definition of `render`.) -/
-theorem C14_segmentation (prim : Str → PVal → Str) (shw : Obj → Out → Out × Outcome)
+    FormatError at the first specification that has no argument or at the first call libc rejects (`off < 0`), or with the
+    exception of the first conversion that raises.  (Outcome and destination are equal; the concatenation of the segments is the format by definition of `render`.) -/
+theorem C14_segmentation (prim : Prim) (shw : Obj → Out → Out × Outcome)
     (segs : List Seg) (hwf : wfSegs cfgNow.conv segs = true) (args : List Obj) (o : Out) :
     (printToWith cfgNow prim shw (render segs) args o).pair = refRun cfgNow prim shw args segs 0 o :=
   printToWith_pair cfgNow prim shw args C14_scan_set.1 segs hwf o
@@ -66,7 +85,7 @@ theorem C14_grammar_decidable (fmt : Str) (segs : List Seg) :
 
 /-- **C14 for a format given as text**: if the (executable) parser accepts `fmt` with segments `segs`, then
     `print_to_with` on `fmt` does exactly what the reference semantics does on `segs`, within the buffers. -/
-theorem C14_checked_format (prim : Str → PVal → Str) (shw : Obj → Out → Out × Outcome)
+theorem C14_checked_format (prim : Prim) (shw : Obj → Out → Out × Outcome)
     (fmt : Str) (segs : List Seg) (hp : parseFmt cfgNow.conv fmt = some segs) (args : List Obj) (o : Out) :
     let r := printToWith cfgNow prim shw fmt args o
     r.pair = refRun cfgNow prim shw args segs 0 o ∧ r.marks.rdMax ≤ fmt.length ∧ r.marks.wrMax ≤ fmt.length := by
@@ -77,18 +96,19 @@ theorem C14_checked_format (prim : Str → PVal → Str) (shw : Obj → Out → 
 
 /-- **The calls in closed form.** On a well-formed format whose specifications each find an argument of their class
     (`expectCalls … = some cs`: Int for d i u o x X c, Float for f F e E g G a A, String for s, anything for p and $),
-    with a `show` that makes the calls `showCalls a` and does not raise, `print_to_with` makes exactly the calls `cs`:
+    with a `show` that makes the calls `showCalls a` and does not raise, and libc accepting all of them (`AllAcc`),
+    `print_to_with` makes exactly the calls `cs`:
     the literal runs verbatim, `%%`, for the k-th specification the fragment `%` body conv with the C value of the k-th
     argument, for `%$` the calls of the k-th argument's own show — in order; it completes, and the position returned is
     the start position plus the length of the text libc wrote for these calls. -/
-theorem C14_calls (prim : Str → PVal → Str) (shw : Obj → Out → Out × Outcome) (showCalls : Obj → List Call)
+theorem C14_calls (prim : Prim) (shw : Obj → Out → Out × Outcome) (showCalls : Obj → List Call)
     (hs : ∀ a o, shw a o = (emitAll prim o (showCalls a), .ok))
     (segs : List Seg) (hwf : wfSegs cfgNow.conv segs = true) (args : List Obj) (cs : List Call)
-    (hcs : expectCalls showCalls args segs 0 = some cs) (o : Out) :
+    (hcs : expectCalls showCalls args segs 0 = some cs) (hacc : AllAcc prim cs) (o : Out) :
     let r := printToWith cfgNow prim shw (render segs) args o
     r.pair = (emitAll prim o cs, .ok) ∧ r.out.calls = o.calls ++ cs ∧ r.out.pos = o.pos + (textOf prim cs).length := by
   have h := C14_segmentation prim shw segs hwf args o
-  rw [refRun_typed prim shw C14_dispatch_table showCalls hs args segs 0 cs o hcs] at h
+  rw [refRun_typed prim shw C14_dispatch_table showCalls hs args segs 0 cs o hcs hacc] at h
   have h1 : (printToWith cfgNow prim shw (render segs) args o).out = emitAll prim o cs := congrArg Prod.fst h
   refine ⟨h, ?_, ?_⟩
   · simp only [h1, emitAll_calls]
@@ -108,16 +128,17 @@ theorem C14_printf_grammar (b : Str) (c : Char) (h : specOK b c = true) : (Seg.s
 /-! ## T1: bounds -/
 
 /-- **C14_bounds.** On a well-formed format every index read in the format array is ≤ its length (the terminator is
-    the last byte read), every index written in `fmt_buf` is ≤ the length (the buffer has length+1 bytes), and the
-    scanner never takes the out-of-bounds outcome (unless a user-supplied `show` reports one). -/
-theorem C14_bounds (prim : Str → PVal → Str) (shw : Obj → Out → Out × Outcome)
+    the last byte read), every index written in `fmt_buf` is ≤ the length (the buffer has length+1 bytes), and — with
+    `String_Format_To` as it is now, also when libc rejects a call — the run never takes the out-of-bounds outcome
+    (unless a user-supplied `show` reports one). -/
+theorem C14_bounds (libc : Libc) (shw : Obj → Out → Out × Outcome)
     (segs : List Seg) (hwf : wfSegs cfgNow.conv segs = true) (args : List Obj) (o : Out) :
-    let r := printToWith cfgNow prim shw (render segs) args o
+    let r := printToWith cfgNow (primNow libc) shw (render segs) args o
     r.marks.rdMax ≤ (render segs).length ∧ r.marks.wrMax ≤ (render segs).length ∧
       ((∀ a o, (shw a o).2 ≠ .oob) → r.oc ≠ .oob) := by
-  obtain ⟨mk', h, h1, h2⟩ := printToWith_refines cfgNow prim shw args C14_scan_set.1 segs hwf o
+  obtain ⟨mk', h, h1, h2⟩ := printToWith_refines cfgNow (primNow libc) shw args C14_scan_set.1 segs hwf o
   simp only [h]
-  exact ⟨h1, h2, fun hs => refRun_not_oob cfgNow prim shw hs args segs 0 o⟩
+  exact ⟨h1, h2, fun hs => refRun_not_oob cfgNow (primNow libc) shw (primNow_guarded libc) hs args segs 0 o⟩
 
 /-- every format the built-in Show instances pass to `print_to` (read from the source) is well-formed -/
 theorem C14_show_formats_wf : ∀ f ∈ showNow.formats, (parseFmt cfgNow.conv f).isSome = true := by
@@ -125,57 +146,90 @@ theorem C14_show_formats_wf : ∀ f ∈ showNow.formats, (parseFmt cfgNow.conv f
 
 /-- **C14_bounds with the built-in Show instances**: no hypothesis about `show` is left — Int, Float, String, Array,
     Tuple, List arguments (nested to any depth, any recursion fuel) never make `print_to_with` leave its buffers. -/
-theorem C14_bounds_builtin (prim : Str → PVal → Str) (d : Nat)
+theorem C14_bounds_builtin (libc : Libc) (d : Nat)
     (segs : List Seg) (hwf : wfSegs cfgNow.conv segs = true) (args : List Obj) (o : Out) :
-    let r := printTo cfgNow prim showNow d (render segs) args o
+    let r := printTo cfgNow (primNow libc) showNow d (render segs) args o
     r.marks.rdMax ≤ (render segs).length ∧ r.marks.wrMax ≤ (render segs).length ∧ r.oc ≠ .oob := by
-  have h := C14_bounds prim (showD cfgNow prim showNow d) segs hwf args o
-  exact ⟨h.1, h.2.1, h.2.2 (showD_not_oob cfgNow prim showNow C14_scan_set.1 C14_show_formats_wf d)⟩
+  have h := C14_bounds libc (showD cfgNow (primNow libc) showNow d) segs hwf args o
+  exact ⟨h.1, h.2.1, h.2.2 (showD_not_oob cfgNow (primNow libc) showNow (primNow_guarded libc) C14_scan_set.1 C14_show_formats_wf d)⟩
 
 /-! ## T1: position and sinks -/
 
-/-- **C14_position.** For EVERY format (well-formed or not) and argument list there is one sequence of primitive calls
-    `cs` and one outcome such that, whatever the destination and the start position: the calls made are `cs` (so a String
-    and a File receive the same calls), the returned position is start + the number of characters libc wrote for them,
-    a File receives exactly that text at its offset, and a String written from `start ≤ length` holds
-    `take start old ++ text` (it is untouched if no call was made). `show` may be any function that is itself pure. -/
-theorem C14_position (prim : Str → PVal → Str) (shw : Obj → Out → Out × Outcome) (hs : ∀ a, Pure prim (shw a))
+/-- **C14_position.** For EVERY format (well-formed or not), argument list and libc there is one sequence of primitive
+    calls `cs` and one outcome such that, whatever the destination and the start position: the calls made are `cs` (so a
+    String and a File receive the same calls), the returned position is start + the number of characters libc wrote for
+    them (a rejected call writes none), a File receives exactly that text at its offset, and a String written from
+    `start ≤ length` holds `take start old ++ text` — it is untouched if libc accepted no call (none was made, or the
+    first one was rejected: `if (size < 0) { return size; }`).  `show` may be any function that is itself pure. -/
+theorem C14_position (libc : Libc) (shw : Obj → Out → Out × Outcome) (hs : ∀ a, Pure (primNow libc) (shw a))
     (fmt : Str) (args : List Obj) :
     ∃ (cs : List Call) (oc : Outcome), ∀ (sink : Sink) (start : Nat),
+      let prim := primNow libc
       let r := printToWith cfgNow prim shw fmt args ⟨sink, start, []⟩
       r.out.calls = cs ∧ r.oc = oc ∧ r.out.pos = start + (textOf prim cs).length ∧
       (∀ c, sink = .file c → r.out.sink = .file (c ++ textOf prim cs)) ∧
       (∀ v, sink = .str v → start ≤ v.length →
-        r.out.sink = if cs = [] then .str v else .str (v.take start ++ textOf prim cs)) := by
-  obtain ⟨cs, oc, h⟩ := printToWith_pure prim cfgNow shw hs fmt args
+        r.out.sink = if accepted prim cs = [] then .str v else .str (v.take start ++ textOf prim cs)) := by
+  have hg := primNow_guarded libc
+  obtain ⟨cs, oc, h⟩ := printToWith_pure (primNow libc) cfgNow shw hg hs fmt args
   refine ⟨cs, oc, fun sink start => ?_⟩
   have hr := h ⟨sink, start, []⟩
   simp only [Result.pair, Prod.mk.injEq] at hr
   obtain ⟨h1, h2⟩ := hr
   simp only [h1, h2]
   refine ⟨by simp [emitAll_calls], trivial, by simp [emitAll_pos], fun c hc => ?_, fun v hv hle => ?_⟩
-  · exact emitAll_file prim cs _ c hc
-  · cases cs with
-    | nil => simp [emitAll, hv]
-    | cons d ds => simpa using emitAll_str prim d ds ⟨sink, start, []⟩ v hv hle
+  · exact emitAll_file (primNow libc) cs _ c hc
+  · exact emitAll_str_guarded (primNow libc) hg cs ⟨sink, start, []⟩ v hv hle
 
 /-- **C14_position for the built-in types**: the same with `show` = the model of Int_Show / Float_Show / String_Show /
     Array_Show / Tuple_Show / List_Show (any recursion fuel): no hypothesis left. -/
-theorem C14_position_builtin (prim : Str → PVal → Str) (d : Nat) (fmt : Str) (args : List Obj) :
+theorem C14_position_builtin (libc : Libc) (d : Nat) (fmt : Str) (args : List Obj) :
     ∃ (cs : List Call) (oc : Outcome), ∀ (sink : Sink) (start : Nat),
+      let prim := primNow libc
       let r := printTo cfgNow prim showNow d fmt args ⟨sink, start, []⟩
       r.out.calls = cs ∧ r.oc = oc ∧ r.out.pos = start + (textOf prim cs).length ∧
       (∀ c, sink = .file c → r.out.sink = .file (c ++ textOf prim cs)) ∧
       (∀ v, sink = .str v → start ≤ v.length →
-        r.out.sink = if cs = [] then .str v else .str (v.take start ++ textOf prim cs)) :=
-  C14_position prim (showD cfgNow prim showNow d) (showD_pure prim cfgNow showNow d) fmt args
+        r.out.sink = if accepted prim cs = [] then .str v else .str (v.take start ++ textOf prim cs)) :=
+  C14_position libc (showD cfgNow (primNow libc) showNow d) (showD_pure (primNow libc) cfgNow showNow (primNow_guarded libc) d) fmt args
 
 /-! ## T1: too few arguments -/
 
-/-- **C14_too_few.** On a well-formed format whose specifications can all convert their arguments (`AllOk`: classes match
-    and `show` does not raise), `print_to_with` raises FormatError exactly when there are fewer arguments than
-    specifications, and otherwise completes. -/
-theorem C14_too_few (prim : Str → PVal → Str) (shw : Obj → Out → Out × Outcome)
+/-- **C14_too_few.**  On a well-formed format whose specifications find arguments of their class (`Typed`: Int for
+    d i u o x X c, Float for f F e E g G a A, String for s; anything for p and $) and whose arguments' `show` does not raise:
+    `print_to_with` completes exactly when there are enough arguments AND libc rejects none of the format's own calls
+    (`NoReject`: the literal runs, `%%`, each specification with its argument's C value); otherwise — too few arguments, or
+    a rejected call (`off < 0`) — it raises FormatError, and nothing else can happen. -/
+theorem C14_too_few (libc : Libc) (shw : Obj → Out → Out × Outcome)
+    (segs : List Seg) (hwf : wfSegs cfgNow.conv segs = true) (args : List Obj) (o : Out)
+    (hs : ∀ a ∈ args, ∀ o, (shw a o).2 = .ok) (ht : Typed args segs 0) :
+    let r := printToWith cfgNow (primNow libc) shw (render segs) args o
+    (r.oc = .ok ↔ nspecs segs ≤ args.length ∧ NoReject (primNow libc) args segs 0) ∧
+    (r.oc = .raised .FormatError ↔ args.length < nspecs segs ∨ ¬ NoReject (primNow libc) args segs 0) := by
+  have h := C14_segmentation (primNow libc) shw segs hwf args o
+  have h2 : (printToWith cfgNow (primNow libc) shw (render segs) args o).oc = (refRun cfgNow (primNow libc) shw args segs 0 o).2 := by
+    rw [← h]; rfl
+  simp only [h2]
+  rcases refRun_outcome_typed (primNow libc) shw args (primNow_guarded libc) C14_dispatch_table hs segs 0 o ht (by omega)
+    with ⟨h3, h4, h5⟩ | ⟨h3, h4⟩
+  · rw [h3]
+    simp only [Nat.zero_add] at h4
+    refine ⟨⟨fun _ => ⟨h4, h5⟩, fun _ => rfl⟩, ⟨fun hc => (by cases hc), fun hc => ?_⟩⟩
+    rcases hc with hc | hc
+    · omega
+    · exact absurd h5 hc
+  · rw [h3]
+    simp only [Nat.zero_add] at h4
+    refine ⟨⟨fun hc => (by cases hc), fun hc => ?_⟩, ⟨fun _ => h4, fun _ => rfl⟩⟩
+    rcases h4 with h4 | h4
+    · omega
+    · exact absurd hc.2 h4
+
+/-- **C14_too_few when nothing else can fail.** On a well-formed format whose literal runs libc accepts and whose
+    specifications can all convert their arguments (`AllOk`: classes match, libc accepts the call, `show` does not
+    raise), `print_to_with` raises FormatError exactly when there are fewer arguments than specifications, and otherwise
+    completes.  (Any `prim`: no rejected call, so the code of `String_Format_To` does not matter.) -/
+theorem C14_too_few_all_ok (prim : Prim) (shw : Obj → Out → Out × Outcome)
     (segs : List Seg) (hwf : wfSegs cfgNow.conv segs = true) (args : List Obj) (o : Out)
     (hok : AllOk cfgNow prim shw args segs 0) :
     let r := printToWith cfgNow prim shw (render segs) args o
@@ -187,6 +241,59 @@ theorem C14_too_few (prim : Str → PVal → Str) (shw : Obj → Out → Out × 
   rcases refRun_outcome cfgNow prim shw args segs 0 o hok (by omega) with ⟨h3, h4⟩ | ⟨h3, h4⟩
   · rw [h3]; simp; omega
   · rw [h3]; simp; omega
+
+/-! ## a specification libc rejects (fix a626877) -/
+
+/-- **A rejected specification leaves the sink as the prefix left it and raises FormatError** — for every format prefix
+    already written.  Format = `pre`, then a specification `%` b c, then anything; the prefix makes the calls `cs` (all
+    accepted, `show` as in `C14_calls`); the specification finds an argument of its class and libc rejects the call
+    (e.g. `%lc` with a wide character the "C" locale cannot encode, a width that overflows `int`).  Then, with the code
+    as it is now: FormatError; String and File hold exactly what the prefix wrote (a String that received nothing is
+    untouched — NOT cut at the start position, not freed); the position is where the prefix ended; the rejected call is
+    the last one in the log and `post` is never looked at.  (The prefix IS written: known finding KF-C14-partial-write.) -/
+theorem C14_reject_unchanged (libc : Libc) (shw : Obj → Out → Out × Outcome) (showCalls : Obj → List Call)
+    (hs : ∀ a o, shw a o = (emitAll (primNow libc) o (showCalls a), .ok))
+    (pre : List Seg) (b : Str) (c : Char) (post : List Seg)
+    (hwf : wfSegs cfgNow.conv (pre ++ .spec b c :: post) = true) (args : List Obj) (cs : List Call)
+    (hcs : expectCalls showCalls args pre 0 = some cs) (hacc : AllAcc (primNow libc) cs)
+    (a : Obj) (ha : args[nspecs pre]? = some a) (v : PVal) (hv : specVal c a = some v)
+    (hrej : libc.rej ('%' :: (b ++ [c])) v = true) (o : Out) :
+    let prim := primNow libc
+    let r := printToWith cfgNow prim shw (render (pre ++ .spec b c :: post)) args o
+    r.oc = .raised .FormatError ∧
+    r.out.sink = (emitAll prim o cs).sink ∧ r.out.pos = o.pos + (textOf prim cs).length ∧
+    r.out.calls = o.calls ++ cs ++ [⟨'%' :: (b ++ [c]), v⟩] ∧
+    (∀ s, o.sink = .str s → o.pos ≤ s.length →
+      r.out.sink = if cs = [] then .str s else .str (s.take o.pos ++ textOf prim cs)) ∧
+    (∀ f, o.sink = .file f → r.out.sink = .file (f ++ textOf prim cs)) := by
+  have h := C14_segmentation (primNow libc) shw _ hwf args o
+  rw [refRun_reject shw args libc C14_dispatch_table showCalls hs pre b c post cs hcs hacc a ha v hv hrej o] at h
+  have h1 : (printToWith cfgNow (primNow libc) shw (render (pre ++ .spec b c :: post)) args o).out = _ := congrArg Prod.fst h
+  have h2 : (printToWith cfgNow (primNow libc) shw (render (pre ++ .spec b c :: post)) args o).oc = _ := congrArg Prod.snd h
+  simp only [h1, h2]
+  refine ⟨trivial, trivial, emitAll_pos _ cs o, trivial, fun s hs' hle => ?_, fun f hf => emitAll_file _ cs o f hf⟩
+  have := emitAll_str_guarded (primNow libc) (primNow_guarded libc) cs o s hs' hle
+  rw [accepted_of_allAcc _ cs hacc] at this
+  exact this
+
+/-- **The OLD `String_Format_To` (before a626877) on the same witness** (corpus/fmt_fixed_libc_reject.ops:
+    `print_to(s, 3, "%lc", $I(256))` and `print_to(s, 0, "%lc", $I(256))` on a String holding "hello"): without the guard
+    the `realloc(val, pos + (−1) + 1)` cuts the String to `pos` bytes — at `pos = 3` the terminator written by `vsprintf`
+    lands outside the block (undefined behaviour), at `pos = 0` the block is freed and OutOfMemoryError is raised — the
+    String is not "hello" any more and the outcome is not FormatError; with the code as it is now it is untouched. -/
+theorem C14_reject_old_refuted :
+    let fmt := ['%', 'l', 'c']
+    let hello := ['h', 'e', 'l', 'l', 'o']
+    let old3 := printTo cfgNow (primOld libcTest) showNow 4 fmt [.int 256] ⟨.str hello, 3, []⟩
+    let old0 := printTo cfgNow (primOld libcTest) showNow 4 fmt [.int 256] ⟨.str hello, 0, []⟩
+    let now3 := printTo cfgNow (primNow libcTest) showNow 4 fmt [.int 256] ⟨.str hello, 3, []⟩
+    let now0 := printTo cfgNow (primNow libcTest) showNow 4 fmt [.int 256] ⟨.str hello, 0, []⟩
+    old3.oc = .oob ∧ old3.out.sink = .str ['h', 'e', 'l'] ∧
+    old0.oc = .raised .OutOfMemoryError ∧ old0.out.sink = .str [] ∧
+    now3.oc = .raised .FormatError ∧ now3.out.sink = .str hello ∧ now3.out.pos = 3 ∧
+    now0.oc = .raised .FormatError ∧ now0.out.sink = .str hello ∧
+    now3.out.calls = [⟨fmt, .i64 256⟩] := by
+  decide
 
 /-! ## %$ and the built-in Show instances -/
 
@@ -201,18 +308,18 @@ theorem C14_show_formats :
   decide
 
 /-- **`%$` is show**: `print_to(out, pos, "%$", a)` does exactly what `show_to(a, out, pos)` does, for any `show`. -/
-theorem C14_show_print (prim : Str → PVal → Str) (shw : Obj → Out → Out × Outcome) (a : Obj) (o : Out) :
+theorem C14_show_print (prim : Prim) (shw : Obj → Out → Out × Outcome) (a : Obj) (o : Out) :
     (printToWith cfgNow prim shw ['%', '$'] [a] o).pair = shw a o :=
   print_show cfgNow prim shw C14_scan_set.1 (C14_scan_set.2.1 '$' (by decide)) C14_dispatch_table.2.2.2.2.2 a o
 
 /-- **A container shows its elements' own show text, each once, in iteration order** (`showItemsSpec`: the first item's
     show, then for each further item the separator and that item's show; stopping at the first that raises), between
     the opening text (with the container's address for Array and List) and the closing text — Tuple, Array and List. -/
-theorem C14_show_containers (prim : Str → PVal → Str) (d : Nat) (items : List Obj) (o : Out) :
+theorem C14_show_containers (prim : Prim) (d : Nat) (items : List Obj) (o : Out) :
     let elem := fun x o => showD cfgNow prim showNow d x o
-    let lit := fun (s : Str) (o : Out) => (o.formatTo prim s .none, Outcome.ok)
-    let addr := fun (pre post : Str) (o : Out) =>
-      (((o.formatTo prim pre .none).formatTo prim ['%', 'p'] .ptr).formatTo prim post .none, Outcome.ok)
+    let lit := fun (s : Str) (o : Out) => o.call prim s .none
+    let addr := fun (pre post : Str) =>
+      andThen (lit pre) (andThen (fun o => o.call prim ['%', 'p'] .ptr) (lit post))
     showD cfgNow prim showNow (d + 1) (.tuple items) o =
       andThen (lit showNow.tupOpen) (andThen (showItemsSpec prim elem showNow.tupSep items) (lit showNow.tupClose)) o ∧
     showD cfgNow prim showNow (d + 1) (.array items) o =
@@ -229,15 +336,6 @@ theorem C14_show_containers (prim : Str → PVal → Str) (d : Nat) (items : Lis
   exact ⟨showD_tuple cfgNow prim showNow hp hd hf t1 t2 t3 d items o,
     showD_array cfgNow prim showNow hp hd hf hfp _ _ a1 a2 a3 d items o,
     showD_list cfgNow prim showNow hp hd hf hfp _ _ l1 l2 l3 d items o⟩
-
-/-- **C14_too_few for arguments of the right class**: on a well-formed format where every specification that has an
-    argument has one of its class (`Typed`: Int for d i u o x X c, Float for f F e E g G a A, String for s; anything for
-    p and $) and `show` does not raise, FormatError is raised exactly when there are fewer arguments than specifications. -/
-theorem C14_too_few_typed (prim : Str → PVal → Str) (shw : Obj → Out → Out × Outcome) (hs : ∀ a o, (shw a o).2 = .ok)
-    (segs : List Seg) (hwf : wfSegs cfgNow.conv segs = true) (args : List Obj) (o : Out) (ht : Typed args segs 0) :
-    let r := printToWith cfgNow prim shw (render segs) args o
-    (r.oc = .raised .FormatError ↔ args.length < nspecs segs) ∧ (r.oc = .ok ↔ nspecs segs ≤ args.length) :=
-  C14_too_few prim shw segs hwf args o (allOk_of_typed prim shw C14_dispatch_table hs args segs 0 ht)
 
 /-! ## known finding F29, malformed tails, non-vacuity -/
 
